@@ -59,10 +59,12 @@ def run_start(sd, binds, path, busyfor):
                 with open(upath, "w") as f:
                     f.write("precious")
         if "tcp" in binds and busyfor > 0:
+            # the port that is taken: whatever the kernel gives the holder (no window between choosing and binding)
             holder = socket.socket(socket.AF_INET, socket.SOCK_STREAM)
             holder.setsockopt(socket.SOL_SOCKET, socket.SO_REUSEADDR, 1)
-            holder.bind(("127.0.0.1", port))
+            holder.bind(("127.0.0.1", 0))
             holder.listen(4)
+            port = holder.getsockname()[1]
         # descriptors handed over: one for the fd:// bind, one for the activation variables
         fdsock = sdsock = None
         args = []
@@ -195,7 +197,11 @@ def follow(ctx):
                 for b in (("tcp",), ("unix",), ("tcp", "unix"), ("unix", "tcp"), ("fd",), ("fd", "tcp"), ("unix", "fd"))
                 for p in (("absent", "stale", "live", "file") if "unix" in b else ("absent",))
                 for k in ((0, 2, 99) if "tcp" in b else (0,))]
-    results = _parallel(plan, lambda a, i: run_start(*a), par=10)
+    try:
+        results = _parallel(plan, lambda a, i: run_start(*a), par=10)
+    except Exception as e:   # noqa  (outside the property: a failure of this follower is recorded, it does not fail the check)
+        ctx.coverage["real_starts_followed"] = "not run: %r" % (e,)
+        return
     cfgp = os.path.join(tlc.OUT, "cfg", "ListenersTrace.cfg")
     os.makedirs(os.path.dirname(cfgp), exist_ok=True)
     tlc.write_cfg(cfgp, spec="TSpec", constants={"Dev": set()}, constraints=["Record"], postcondition="Post")
